@@ -19,7 +19,7 @@ RULE = (
     "Hypothesis: n in 1..4 variables with positive scales and offsets, K in 1..2 objectives and C in 0..2 non-linear "
     "constraints with positive scales, finite/infinite bounds, 0-3 linear constraints (non-zero rows, all bound kinds), "
     "ABSOLUTE and RELATIVE perturbations, all boundary types, R in 1..3, P in 1..3, injected design samples that may "
-    "leave the bounds; the same user-domain configuration and point is evaluated (functions + gradients) with and "
+    "leave the bounds, start points inside and outside the bounds, failed realizations up to 'too few successes, no function values'; the same user-domain configuration and point is evaluated (functions + gradients) with and "
     "without the transforms. Oracle (differential): evaluator rows, user-domain results (variables, per-realization "
     "values, per-objective and per-constraint functions, all constraint diffs/violations) agree; 40 random points are feasible w.r.t. the "
     "user bounds/linear constraints iff their images are feasible w.r.t. the transformed configuration; from(to(x)) = x. "
@@ -37,7 +37,7 @@ def build(case: dict[str, Any], with_transforms: bool) -> tuple[EnOptConfig, Aff
     n, r_n, p_n, k_n, c_n, l_n = case["n"], case["R"], case["P"], case["K"], case["C"], case["L"]
     cfg: dict[str, Any] = {
         "variables": {"initial_values": case["x"], "lower_bounds": case["lb"], "upper_bounds": case["ub"]},
-        "realizations": {"weights": case["weights"]},
+        "realizations": {"weights": case["weights"], "realization_min_success": case.get("rmin", r_n) if case.get("fail") else None},
         "objectives": {"weights": case["obj_weights"]},
         "gradient": {"number_of_perturbations": p_n, "perturbation_magnitudes": case["magnitudes"],
                      "perturbation_types": case["types"], "boundary_types": case["boundary"]},
@@ -58,7 +58,8 @@ def build(case: dict[str, Any], with_transforms: bool) -> tuple[EnOptConfig, Aff
     config = EnOptConfig.model_validate(cfg, context=transforms)
     a = np.array(case["slopes"], dtype=np.float64).reshape(r_n, k_n + c_n, n)
     b = np.array(case["offsets"], dtype=np.float64).reshape(r_n, k_n + c_n)
-    ev = AffineEvaluator(a[:, :k_n], b[:, :k_n], a[:, k_n:] if c_n else None, b[:, k_n:] if c_n else None)
+    ev = AffineEvaluator(a[:, :k_n], b[:, :k_n], a[:, k_n:] if c_n else None, b[:, k_n:] if c_n else None,
+                         fail={(int(r), -1): [("obj", 0)] for r in case.get("fail") or []})
     manager = PluginManager()
     manager.add_plugin("sampler", "design", DesignSamplerPlugin([np.array(case["design"], dtype=np.float64).reshape(r_n, p_n, n)]))
     return config, ev, manager, transforms
@@ -88,7 +89,11 @@ def run_case(case: dict[str, Any]) -> dict[str, Any]:
         check(bool(np.all(np.abs(transforms.variables.from_optimizer(x_opt) - x_user) <= 1e-12 * (1 + np.abs(x_user)))), "round-trip",
               "validated initial values are not the optimizer-domain image of the configured ones", case)
     ens_t, ens_u = EnsembleEvaluator(cfg_t, transforms, ev_t, mgr_t), EnsembleEvaluator(cfg_u, None, ev_u, mgr_u)
-    if case.get("split"):  # functions first, then a gradient-only request at the same point
+    if case.get("fail"):  # some realizations fail: functions only (possibly too few successes: no function values at all)
+        (f_t,) = ens_t.calculate(x_opt, compute_functions=True, compute_gradients=False)
+        (f_u,) = ens_u.calculate(x_user, compute_functions=True, compute_gradients=False)
+        g_t = g_u = None
+    elif case.get("split"):  # functions first, then a gradient-only request at the same point
         (f_t,) = ens_t.calculate(x_opt, compute_functions=True, compute_gradients=False)
         (g_t,) = ens_t.calculate(x_opt, compute_functions=False, compute_gradients=True)
         (f_u,) = ens_u.calculate(x_user, compute_functions=True, compute_gradients=False)
@@ -102,15 +107,19 @@ def run_case(case: dict[str, Any]) -> dict[str, Any]:
         close(case, c_t["variables"], c_u["variables"], 1e-9, "evaluator-rows", "variables handed to the evaluator")
         check(bool(np.array_equal(c_t["realizations"], c_u["realizations"])) and
               bool(np.array_equal(c_t["perturbations"], c_u["perturbations"])), "evaluator-rows", "labels differ", case)
-    fu_t, gu_t = f_t.transform_from_optimizer(transforms), g_t.transform_from_optimizer(transforms)
+    fu_t = f_t.transform_from_optimizer(transforms)
+    gu_t = None if g_t is None else g_t.transform_from_optimizer(transforms)
     close(case, fu_t.evaluations.variables, f_u.evaluations.variables, 1e-9, "result-variables", "variables")
     close(case, fu_t.evaluations.objectives, f_u.evaluations.objectives, 1e-9, "result-values", "per-realization objectives")
     close(case, fu_t.evaluations.constraints, f_u.evaluations.constraints, 1e-9, "result-values", "per-realization constraints")
-    close(case, fu_t.functions.objectives, f_u.functions.objectives, 1e-9, "result-functions", "objective functions")
-    close(case, fu_t.functions.constraints, f_u.functions.constraints, 1e-9, "result-functions", "constraint functions")
-    close(case, gu_t.evaluations.perturbed_variables, g_u.evaluations.perturbed_variables, 1e-9, "result-variables", "perturbed variables")
-    close(case, gu_t.evaluations.perturbed_objectives, g_u.evaluations.perturbed_objectives, 1e-9, "result-values", "perturbed objectives")
-    close(case, gu_t.evaluations.perturbed_constraints, g_u.evaluations.perturbed_constraints, 1e-9, "result-values", "perturbed constraints")
+    check((fu_t.functions is None) == (f_u.functions is None), "result-functions", "function values present in only one of the runs", case)
+    if f_u.functions is not None:
+        close(case, fu_t.functions.objectives, f_u.functions.objectives, 1e-9, "result-functions", "objective functions")
+        close(case, fu_t.functions.constraints, f_u.functions.constraints, 1e-9, "result-functions", "constraint functions")
+    if gu_t is not None:
+        close(case, gu_t.evaluations.perturbed_variables, g_u.evaluations.perturbed_variables, 1e-9, "result-variables", "perturbed variables")
+        close(case, gu_t.evaluations.perturbed_objectives, g_u.evaluations.perturbed_objectives, 1e-9, "result-values", "perturbed objectives")
+        close(case, gu_t.evaluations.perturbed_constraints, g_u.evaluations.perturbed_constraints, 1e-9, "result-values", "perturbed constraints")
     ci_t, ci_u = fu_t.constraint_info, f_u.constraint_info
     check((ci_t is None) == (ci_u is None), "constraint-info", "constraint info present in only one run", case)
     if ci_t is not None:
@@ -138,7 +147,7 @@ def run_case(case: dict[str, Any]) -> dict[str, Any]:
             continue
         check(bool(np.array_equal(flat_u >= 0, flat_t >= 0)), "feasibility",
               f"point {pt.tolist()}: user-domain feasibility pattern {(flat_u >= 0).tolist()} != optimizer-domain {(flat_t >= 0).tolist()}", case)
-    pv = np.asarray(g_u.evaluations.perturbed_variables)
+    pv = np.asarray(g_u.evaluations.perturbed_variables) if g_u is not None else x_user
     hit = bool(np.any(pv <= lb_u) or np.any(pv >= ub_u))
     scaled = case["use_v"] and (case.get("v_kind") != "offsets") and any(s != 1.0 for s in case["vscale"])
     return {"nontrivial": scaled and (case["L"] > 0 or hit), "hit": hit, "skipped": skipped}
@@ -171,7 +180,7 @@ def hypothesis_shard(item: dict[str, Any]) -> Collector:
             width = draw(st.sampled_from([0.5, 1.0, 4.0]))
             lb.append(lo if kind != "free" else -np.inf)
             ub.append(lo + width if kind == "finite" else np.inf)
-            x.append(lo + draw(st.sampled_from([0.0, 0.25, 0.5, 1.0])) * width)
+            x.append(lo + draw(st.sampled_from([0.0, 0.25, 0.5, 1.0, 0.5, -0.5, 1.5])) * width)  # also infeasible start points
             types.append(2 if kind == "finite" and draw(st.booleans()) else 1)
         llb, lub = draw(bounds(l_n))
         nlb, nub = draw(bounds(c_n))
@@ -182,7 +191,9 @@ def hypothesis_shard(item: dict[str, Any]) -> Collector:
                 row[draw(st.integers(0, n - 1))] = draw(st.sampled_from([1.0, -1.0]))
             a_mat.append(row)
         weights = [draw(st.sampled_from([1.0, 2.0, 0.5])) for _ in range(r_n)]
+        fail = sorted(draw(st.sets(st.integers(0, r_n - 1), min_size=1))) if draw(st.integers(0, 4)) == 0 else []
         return {
+            "fail": fail, "rmin": draw(st.integers(0, r_n)),
             "n": n, "R": r_n, "P": p_n, "K": k_n, "C": c_n, "L": l_n, "x": x, "lb": lb, "ub": ub, "types": types,
             "magnitudes": [draw(st.sampled_from([0.01, 0.1, 0.6])) for _ in range(n)],
             "boundary": [draw(st.integers(1, 3)) for _ in range(n)],
@@ -203,7 +214,10 @@ def hypothesis_shard(item: dict[str, Any]) -> Collector:
         info = run_case(case)
         col.case(case, nontrivial=info["nontrivial"], classes=(
             "var-transform" if case["use_v"] else "no-var-transform", "split" if case.get("split") else "combined", f"L={case['L']}", f"C={case['C']}",
-            "bound-hit" if info["hit"] else "inside", "relative" if 2 in case["types"] else "absolute"))  # noqa: PLR2004
+            "bound-hit" if info["hit"] else "inside", "relative" if 2 in case["types"] else "absolute",  # noqa: PLR2004
+            "failed-realizations" if case["fail"] else "no-failures",
+            "no-function-values" if case["fail"] and len(case["weights"]) - len(case["fail"]) < case["rmin"] else "function-values",
+            "start-outside-bounds" if any(v < lo or v > hi for v, lo, hi in zip(case["x"], case["lb"], case["ub"])) else "start-inside-bounds"))
 
     run_hypothesis(col, cases(), body, seed=item["seed"], max_examples=item["examples"])
     return col
